@@ -337,6 +337,47 @@ def h1_paths(K=2, first=0, paint=None, timeout=200, part=None, axis_ctm=False, n
                          timeout, concretize=conc, shims={"namespace_shims": shims}, part=part)
 
 
+def h2_quads(timeout=200, part=None, **kw):
+    """five-point subpaths (m l l l h / m l l l l / re) with ALL coordinates symbolic: the line / rectangle / curve classification"""
+    shims = C05._shims()
+    import pdfminer.converter as cv
+
+    def fn(ex):
+        it, dev = _setup()
+        md = Model()
+        r = lambda n: ex.real(n, -R, R)
+        form = ex.choice(3, "form")
+        axis = ex.choice(2, "axis_cm")
+        prog = []
+        if axis:
+            prog.append(("S", "cm", [ex.real("s0_0", -10, 10), 0, 0, ex.real("s0_3", -10, 10), ex.real("s0_4", -10, 10), ex.real("s0_5", -10, 10)]))
+        if form == 2:
+            prog.append(("C", "re", [r("p0_%d" % i) for i in range(4)]))
+        else:
+            prog.append(("C", "m", [r("p0_0"), r("p0_1")]))
+            for k in range(1, 4):
+                prog.append(("C", "l", [r("p%d_0" % k), r("p%d_1" % k)]))
+            prog.append(("C", "h", []) if form == 0 else ("C", "l", [r("p4_0"), r("p4_1")]))
+        prog.append(("P", PAINT_NAMES[ex.choice(2, "paint") * 2], []))            # S or f
+        info = {"prog": [(k, o) for k, o, _ in prog], "args": [[x if isinstance(x, (str, list, int)) and not isinstance(x, (SV, SI)) else ("sym", str(x.e)) for x in a] for _, _, a in prog]}
+        for kind, o, a in prog:
+            if kind == "S":
+                real_state(it, o, a)
+                md.state_op(o, a)
+            elif kind == "C":
+                real_cons(it, o, a + [0] * 6)
+                md.cons(o, a + [0] * 6)
+            else:
+                real_paint(it, o)
+                md.paint(o)
+        check_shapes(ex, shapes_of(dev.cur_item), md.shapes, info)
+
+    def conc(m, info):
+        return {"prog": info["prog"], "args": info["args"], "vals": {str(d): symx.mval(m, m[d]) for d in m.decls()}}
+    return core.run_symx("H2_quads", fn, [cv.PDFLayoutAnalyzer.paint_path], {"subpath": "m l l l h / m l l l l / re with all coordinates symbolic", "cm": "none or axis-aligned symbolic", "paint": "S or f"},
+                         timeout, concretize=conc, shims={"namespace_shims": shims}, part=part)
+
+
 def replay(harness, inp):
     from fractions import Fraction as F
     v = {k: F(x) for k, x in inp["vals"].items()}
@@ -349,8 +390,8 @@ def replay(harness, inp):
             real_state(it, o, a)
             md.state_op(o, a)
         elif kind == "C":
-            real_cons(it, o, a)
-            md.cons(o, a)
+            real_cons(it, o, a + [0] * 6)
+            md.cons(o, a + [0] * 6)
         else:
             real_paint(it, o)
             md.paint(o)
@@ -400,7 +441,7 @@ def replay(harness, inp):
 
 
 def jobs(tier):
-    J = []
+    J = [Job("H2_quads:%d" % k, "h2_quads", {"part": [k, 3, 6]}, 300, "H2_quads") for k in range(3)]
     if tier == "quick":
         for k in range(10):
             J.append(Job("H1_paths:K2:m:axis:%d" % k, "h1_paths", {"K": 2, "first": 0, "axis_ctm": True, "part": [k, 10, 11]}, 300, "H1_paths"))
